@@ -7,5 +7,6 @@ CONSTANTS
     Compat <- Code_Compat
     LatestEdition <- Code_LatestEdition
     Forms <- AllFormsD
-INVARIANTS ParseTotal
+    NightlyZero = "panic"
+INVARIANTS TypeOK FlagSound FlagMonotone EditionRule LatestEditionRule DefaultRule ParseRule ParseTotal ConstructMonotone
 CHECK_DEADLOCK FALSE
